@@ -22,7 +22,7 @@ INT = '''
 pub mod prim_$T {
 use super::*;
 broadcast use auto::psc_auto;
-//@module prim_$T props=C01,C02,C03,C07,C08,C13,C14,C18
+//@module prim_$T props=C01,C02,C03,C07,C08,C11,C12,C13,C14,C18
 impl Encode for $T {
     open spec fn spec_enc(&self) -> Seq<u8> { le($VAL(*self), $N) }
     open spec fn enc_ok(&self) -> bool { true }
@@ -36,6 +36,7 @@ impl Decode for $T {
     open spec fn accepts(b: Seq<u8>) -> Option<nat> { if b.len() >= $N { Some($Nnat) } else { None } }
     open spec fn dec_bytes(v: &Self) -> Seq<u8> { le($VAL(*v), $N) }
     open spec fn need_depth(b: Seq<u8>) -> nat { 0 }
+    open spec fn need_mem(b: Seq<u8>) -> Option<nat> { None }
     proof fn law_bound(b: Seq<u8>) {}
     //@const codec | impl Decode for $T | TYPE_INFO
     //@fn prim.$T.decode :: codec | impl Decode for $T | decode
@@ -53,7 +54,7 @@ BYTE = '''
 pub mod prim_$T {
 use super::*;
 broadcast use auto::psc_auto;
-//@module prim_$T props=C01,C02,C03,C07,C08,C13,C14,C18
+//@module prim_$T props=C01,C02,C03,C07,C08,C11,C12,C13,C14,C18
 impl Encode for $T {
     open spec fn spec_enc(&self) -> Seq<u8> { le($VAL(*self), 1) }
     open spec fn enc_ok(&self) -> bool { true }
@@ -68,6 +69,7 @@ impl Decode for $T {
     open spec fn accepts(b: Seq<u8>) -> Option<nat> { if b.len() >= 1 { Some(1nat) } else { None } }
     open spec fn dec_bytes(v: &Self) -> Seq<u8> { le($VAL(*v), 1) }
     open spec fn need_depth(b: Seq<u8>) -> nat { 0 }
+    open spec fn need_mem(b: Seq<u8>) -> Option<nat> { None }
     proof fn law_bound(b: Seq<u8>) {}
     //@const codec | impl Decode for $T | TYPE_INFO
     //@fn prim.$T.decode :: codec | impl Decode for $T | decode
@@ -85,7 +87,7 @@ BOOL = '''
 pub mod prim_bool {
 use super::*;
 broadcast use auto::psc_auto;
-//@module prim_bool props=C01,C02,C03,C07,C08,C13,C14,C18
+//@module prim_bool props=C01,C02,C03,C07,C08,C11,C12,C13,C14,C18
 impl Encode for bool {
     open spec fn spec_enc(&self) -> Seq<u8> { if *self { seq![1u8] } else { seq![0u8] } }
     open spec fn enc_ok(&self) -> bool { true }
@@ -99,6 +101,7 @@ impl Decode for bool {
     open spec fn accepts(b: Seq<u8>) -> Option<nat> { if b.len() >= 1 && (b[0] == 0 || b[0] == 1) { Some(1nat) } else { None } }
     open spec fn dec_bytes(v: &Self) -> Seq<u8> { if *v { seq![1u8] } else { seq![0u8] } }
     open spec fn need_depth(b: Seq<u8>) -> nat { 0 }
+    open spec fn need_mem(b: Seq<u8>) -> Option<nat> { None }
     proof fn law_bound(b: Seq<u8>) {}
     //@fn prim.bool.decode :: codec | impl Decode for bool | decode
     //@ at before `match byte {`
